@@ -154,7 +154,8 @@ Qed.
    vector element a record of the file, possibly shortened, filed under its own range *)
 Definition wderived (l : list win_info) (e : range * win_info) : Prop :=
   wi_range (snd e) = Some (fst e) /\ wi_wf (snd e) /\
-  exists w0, In w0 l /\ snd e = wi_set_size w0 (wi_size (snd e)) /\ 0 < wi_size (snd e) <= wi_size w0.
+  exists w0, In w0 l /\ wi_range w0 <> None /\
+             snd e = wi_set_size w0 (wi_size (snd e)) /\ 0 < wi_size (snd e) <= wi_size w0.
 
 Lemma st_set_size_id w : w = wi_set_size w (wi_size w).
 Proof. destruct w; reflexivity. Qed.
@@ -162,7 +163,7 @@ Proof. destruct w; reflexivity. Qed.
 Lemma st_wderived_new l w mr : In w l -> wi_wf w -> wi_range w = Some mr -> wderived l (mr, w).
 Proof.
   intros Hin Hw Hr. split; [exact Hr|]. split; [exact Hw|]. exists w. cbn [snd]. split; [exact Hin|].
-  split; [apply st_set_size_id|]. unfold wi_range, mk_range in Hr. destruct Hw as [_ [W1 _]].
+  split; [congruence|]. split; [apply st_set_size_id|]. unfold wi_range, mk_range in Hr. destruct Hw as [_ [W1 _]].
   destruct (wi_size w =? 0) eqn:E0; [discriminate|]. apply Z.eqb_neq in E0. lia.
 Qed.
 
@@ -176,7 +177,7 @@ Proof.
   destruct (intersects lr mr) eqn:Ei; [|inversion H; subst; constructor; assumption].
   destruct (wi_addr w >? wi_addr lw) eqn:Eg.
   2:{ destruct (negb (range_eqb lr mr)); inversion H; subst; [exact Hacc|constructor; assumption]. }
-  inversion Hacc as [|? ? Hhd Htl]; subst. destruct Hhd as (Hl & Hlw & w0 & Hw0 & Hset & Hsz). cbn [fst snd] in *.
+  inversion Hacc as [|? ? Hhd Htl]; subst. destruct Hhd as (Hl & Hlw & w0 & Hw0 & Hrg0 & Hset & Hsz). cbn [fst snd] in *.
   assert (Hd : 0 < wi_addr w - wi_addr lw < wi_size lw /\ wi_addr w < two64).
   { unfold wi_range, mk_range, checked_add in Hl, Em. rewrite <- two64_val in Hl, Em.
     destruct (wi_size lw =? 0); [discriminate|].
@@ -194,7 +195,7 @@ Proof.
   inversion H; subst acc'; clear H. constructor; [exact Hnew|]. constructor; [|exact Htl].
   split; [exact El'|]. cbn [fst snd]. split.
   - unfold wi_wf, wi_set_size; cbn [wi_addr wi_size]. lia.
-  - exists w0. split; [exact Hw0|]. split.
+  - exists w0. split; [exact Hw0|]. split; [exact Hrg0|]. split.
     + rewrite Hset at 1. unfold wi_set_size; cbn [wi_addr wi_size wi_prolog wi_epilog wi_params wi_saved wi_locals wi_maxstack wi_thing].
       reflexivity.
     + unfold wi_set_size; cbn [wi_size]. lia.
@@ -231,7 +232,7 @@ Proof.
   { eapply st_win_collect; [constructor| |apply Forall_rev; exact Hwf|exact Hc]. intros a Ha. apply in_rev. exact Ha. }
   destruct (st_build_p wi_eqb v t st_wi_eqb_eq (st_wderived_wf _ _ Hd) Hb) as [Hs Hl]. split; [exact Hs|].
   intros x w Hg. destruct (Hl x w Hg) as [r [Hin Hcx]]. rewrite Forall_forall in Hd.
-  destruct (Hd _ Hin) as (Hr & _ & w0 & Hw0 & Hset & Hsz). cbn [fst snd] in *.
+  destruct (Hd _ Hin) as (Hr & _ & w0 & Hw0 & _ & Hset & Hsz). cbn [fst snd] in *.
   exists w0. split; [exact Hw0|]. split; [exact Hset|]. split; [exact Hsz|].
   unfold wi_range in Hr. destruct (st_mk_range_arith _ _ _ _ Hr Hcx) as (_ & A & B). split; assumption.
 Qed.
